@@ -710,8 +710,11 @@ impl EliasFanoBuilder {
     /// Creates a builder for an [`EliasFano`] containing
     /// `n` numbers smaller than or equal to `u`.
     pub fn new(n: usize, u: usize) -> Self {
+        // The floor of the base-2 logarithm of u / n, computed without
+        // floating-point arithmetic (which returns 64 for u close to 2^64,
+        // and infinity for n = 0)
         let l = if u >= n {
-            (u as f64 / n as f64).log2().floor() as usize
+            (u / n.max(1)).max(1).ilog2() as usize
         } else {
             0
         };
@@ -871,8 +874,11 @@ impl EliasFanoConcurrentBuilder {
     /// Creates a concurrent builder for a sequence containing `n` nonnegative
     /// numbers smaller than or equal to `u`.
     pub fn new(n: usize, u: usize) -> Self {
+        // The floor of the base-2 logarithm of u / n, computed without
+        // floating-point arithmetic (which returns 64 for u close to 2^64,
+        // and infinity for n = 0)
         let l = if u >= n {
-            (u as f64 / n as f64).log2().floor() as usize
+            (u / n.max(1)).max(1).ilog2() as usize
         } else {
             0
         };
